@@ -47,6 +47,65 @@ def determinism_graph(pids, seeds, runs, nworkers=16):
     return ok, report
 
 
+def sensitivity(only=None, tier="quick", patch_dir=None, keep_going=True):
+    """Break the property on purpose in a scratch worktree (outside /repo and /verif),
+    run the registered quick check against it, require exit 1; remove the worktree."""
+    import glob
+    import shutil
+    import subprocess
+    import tempfile
+    patch_dir = patch_dir or os.path.join(orchestrator.VERIF, "selftest_mutants")
+    patches = sorted(glob.glob(os.path.join(patch_dir, "*.diff")))
+    if only:
+        patches = [p for p in patches if only in os.path.basename(p)]
+    results = []
+    for patch in patches:
+        name = os.path.basename(patch)[:-5]
+        pid = name.split("_")[0]
+        tmp = tempfile.mkdtemp(prefix="verif-mut-")
+        wt = os.path.join(tmp, "tree")
+        t0 = time.monotonic()
+        rec = {"mutant": name, "property": pid}
+        try:
+            subprocess.run(["git", "-C", determinism.REPO, "worktree", "add", "-q", "--detach", wt, "HEAD"],
+                           check=True, capture_output=True)
+            ap = subprocess.run(["git", "-C", wt, "apply", patch], capture_output=True, text=True)
+            if ap.returncode != 0:
+                rec["status"] = "patch_does_not_apply"
+                rec["detail"] = ap.stderr[-300:]
+            else:
+                env = dict(os.environ, VERIF_REPO=wt, VERIF_REPLAY_DIR=os.path.join(tmp, "replays"),
+                           VERIF_EVIDENCE_DIR=os.path.join(tmp, "evidence"))
+                env.pop("PYTHONPATH", None)
+                r = subprocess.run([os.path.join(orchestrator.VERIF, "bin", "check"), pid, "--tier", tier],
+                                   capture_output=True, text=True, env=env, timeout=3600)
+                viol = [l for l in r.stdout.splitlines() if l.startswith("VIOLATION")]
+                rec["exit"] = r.returncode
+                rec["violations"] = len(viol)
+                rec["status"] = "caught" if r.returncode == 1 and viol else ("harness_error" if r.returncode == 2 else "MISSED")
+                detail = [l.strip() for l in r.stdout.splitlines() if l.startswith("  op=")]
+                rec["first"] = detail[0][:300] if detail else ""
+                if r.returncode == 2:
+                    rec["detail"] = r.stdout[-600:]
+                # does the replay reproduce in a fresh process?
+                if viol:
+                    rp = viol[0].split("replay=")[1].strip()
+                    r2 = subprocess.run([os.path.join(orchestrator.VERIF, "bin", "check"), pid, "--replay", rp],
+                                        capture_output=True, text=True, env=env, timeout=1800)
+                    rec["replay_reproduces"] = r2.returncode == 1 and "VIOLATION" in r2.stdout
+        except Exception as e:
+            rec["status"] = "harness_error"
+            rec["detail"] = repr(e)[:300]
+        finally:
+            subprocess.run(["git", "-C", determinism.REPO, "worktree", "remove", "--force", wt], capture_output=True)
+            shutil.rmtree(tmp, ignore_errors=True)
+        rec["wall_s"] = round(time.monotonic() - t0, 1)
+        results.append(rec)
+        print("selftest sensitivity", json.dumps(rec))
+        sys.stdout.flush()
+    return results
+
+
 def main(a):
     t0 = time.monotonic()
     what = a.sub or "import"
@@ -68,5 +127,21 @@ def main(a):
             json.dump({"ok": ok, "report": report, "wall_s": round(time.monotonic() - t0, 1)}, f, indent=1)
         print("selftest determinism:", "ok" if ok else "FAILED")
         return 0 if ok else 2
+    if what == "sensitivity":
+        res = sensitivity(only=os.environ.get("VERIF_ONLY_MUTANT"), tier=a.tier)
+        os.makedirs(os.path.join(orchestrator.VERIF, "evidence"), exist_ok=True)
+        out = os.path.join(orchestrator.VERIF, "evidence", "selftest_sensitivity.json")
+        prev = {}
+        if os.environ.get("VERIF_ONLY_MUTANT") and os.path.exists(out):
+            prev = {r["mutant"]: r for r in json.load(open(out)).get("results", [])}
+        for r in res:
+            prev[r["mutant"]] = r
+        allr = sorted(prev.values(), key=lambda r: r["mutant"]) if prev else res
+        with open(out, "w") as f:
+            json.dump({"results": allr, "caught": sum(r.get("status") == "caught" for r in allr),
+                       "total": len(allr)}, f, indent=1)
+        missed = [r["mutant"] for r in res if r.get("status") != "caught"]
+        print("selftest sensitivity: %d/%d caught; not caught: %s" % (len(res) - len(missed), len(res), missed))
+        return 0 if not missed else 2
     print("unknown selftest", what)
     return 2
